@@ -345,6 +345,7 @@ func record(ctx context.Context, level Level, tag string, logger Logger, skip in
 
 	// Step 5: populate event.
 	e := GetEvent()
+	verifEvt(0, e)
 	e.Level = level
 	e.Time = now
 	e.File = file
